@@ -157,3 +157,28 @@ Example texture_examples :
   cooc {| shape := [2; 3]; data := [0;1;1; 2;1;0] |} [0; 1] 3 = [0;1;0; 1;1;0; 0;1;0] /\
   integral [[1;2;3]; [4;5;6]] = [[1;3;6]; [5;12;21]] /\ lbp_map 6 4 = 3.
 Proof. vm_compute. repeat split; reflexivity. Qed.
+
+(* ---------- LBP mapping, for every number of points: the bin of a code is the least of the codes visited by rolling it ---------- *)
+Lemma lbp_map_go_min points : forall n v best,
+  lbp_map_go n v best points = fold_left Z.min (tl (rotations (S n) v points)) best.
+Proof.
+  induction n as [|n IH]; intros v best; [reflexivity|].
+  cbn [lbp_map_go]. rewrite IH. cbn [rotations tl fold_left].
+  destruct (roll_right v points <? best) eqn:E; [apply Z.ltb_lt in E | apply Z.ltb_ge in E]; f_equal; lia.
+Qed.
+Theorem lbp_map_is_least_rotation v points :
+  lbp_map v points = fold_left Z.min (tl (rotations (S (Z.to_nat points)) v points)) v /\
+  (forall r, In r (rotations (S (Z.to_nat points)) v points) -> lbp_map v points <= r) /\
+  In (lbp_map v points) (rotations (S (Z.to_nat points)) v points).
+Proof.
+  unfold lbp_map. rewrite lbp_map_go_min. split; [reflexivity|].
+  set (l := tl (rotations (S (Z.to_nat points)) v points)).
+  assert (E : rotations (S (Z.to_nat points)) v points = v :: l) by reflexivity. rewrite E.
+  assert (G : forall l b, (forall r, In r (b :: l) -> fold_left Z.min l b <= r) /\ In (fold_left Z.min l b) (b :: l)).
+  { induction l0 as [|x l0 IHl]; intro b; cbn [fold_left].
+    - split; [intros r [<-|[]]; lia | left; reflexivity].
+    - destruct (IHl (Z.min b x)) as [A B]. split.
+      + intros r [<-|[<-|H]]; [pose proof (A (Z.min b x) (or_introl eq_refl)); lia | pose proof (A (Z.min b x) (or_introl eq_refl)); lia | apply A; right; exact H].
+      + destruct B as [B|B]; [|right; right; exact B]. rewrite <- B. destruct (Z.min_spec b x) as [[_ ->]|[_ ->]]; [left | right; left]; reflexivity. }
+  apply G.
+Qed.
